@@ -153,6 +153,9 @@ int main(int argc, char** argv) {
       // as a chain in which each set differs from the one imported just before it in one field only
       for (size_t g = 0; g < g0 && g < 2; g++) { P t = grid[g]; grid.push_back(t); double* fld[4] = {&t.amin, &t.amax, &t.tmin, &t.tmax};
           for (int f = 0; f < 4; f++) { *fld[f] = (*fld[f] == 0.0) ? 1e-9 : *fld[f] * (f & 1 ? 0.9999999 : 1.0000001); grid.push_back(t); } } }
+    // arrays of exactly 64 KiB (n = 16384 words, or one polynomial of N = 16384 coefficients) and one word more: writers or readers that move large arrays in blocks
+    { P a = P0(); a.n = 16384; a.N = 2; a.kk = 1; a.l = 1; a.Bgbit = 1; a.t = 1; a.bb = 1; a.ksn = 1; a.amin = reals[3]; a.amax = reals[4]; a.tmin = reals[1]; a.tmax = reals[4]; grid.push_back(a);
+      P b = a; b.n = 1; b.N = 16384; grid.push_back(b); P c = a; c.n = 16385; grid.push_back(c); P d = a; d.n = 32768; grid.push_back(d); }
     for (size_t gi = 0; gi < grid.size(); gi++) {
         bool big = grid[gi].N >= 1024;
         std::vector<Obj> objs = make_objects(grid[gi], grid[gi].N == 1024);
